@@ -83,7 +83,7 @@ type procSpec struct {
 	Exit     int    `json:"exit,omitempty"`
 	Text     string `json:"text,omitempty"`
 	FinalMs  int    `json:"final_ms,omitempty"`
-	Fork     bool   `json:"fork,omitempty"` // the shell forks a worker child (pipeline / compound command)
+	Fork     bool   `json:"fork,omitempty"`      // the shell forks a worker child (pipeline / compound command)
 	LingerMs int    `json:"linger_ms,omitempty"` // closes its output after the last chunk and stays alive
 }
 
